@@ -174,3 +174,14 @@ Theorem C15_produce_meets_check_predicate : forall cd bufm1 close_opt wr src jo 
   produce_ok cd close_opt wr src jo false e (p_got r) (p_wcloses r) (p_pcloses r) = true.
 Proof. exact produce_meets_predicate. Qed.
 Print Assumptions C15_produce_meets_check_predicate.
+
+(* ---- JSON / XML / YAML number slots (the encoders are not modelled: differential) ---- *)
+
+(* the predicate the check evaluates on a number round trip accepts exactly: no panic, no error, at
+   least one leaf, and the texts of the leaves the consumer rebuilt are the texts the producer was
+   given, byte for byte. It says nothing about the encoders themselves. *)
+Theorem C15_number_slots_predicate_exact : forall panicked failed want got,
+  number_slots_ok panicked failed want got = true <->
+  panicked = false /\ failed = false /\ want <> [] /\ got = want.
+Proof. exact number_slots_ok_exact. Qed.
+Print Assumptions C15_number_slots_predicate_exact.
